@@ -44,6 +44,11 @@ type tmpl struct {
 	copySem bool
 	// identTPanics: m.M(m.T()) is documented to panic (doc.go: Copy).
 	identTPanics bool
+	// noSamePointer: do not additionally pass the window of identical geometry
+	// as the very same pointer (selfop Solve: m.Solve(m, m) takes the a == b
+	// shortcut and returns the exact identity, while the unaliased twin solves
+	// numerically; that case is covered as Solve(ab) in group dense).
+	noSamePointer bool
 }
 
 type refCtx struct {
@@ -389,7 +394,7 @@ func (c *caseRun) run() {
 				vr, vc = vc, vr
 			}
 			for _, ov := range s.views[vkey{xs.k, vr, vc}] {
-				same := ov.sameGeom(rv) && ov.route == rv.route
+				same := ov.sameGeom(rv) && ov.route == rv.route && !tm.noSamePointer
 				for fv := 0; fv < tm.nf; fv++ {
 					c.pair(ov, xs.trans, false, fv)
 					if same {
